@@ -1220,12 +1220,42 @@ func (h *H) Step(op string) (out string) {
 	}()
 	f := strings.Fields(op)
 	i64 := func(s string) int64 { v, _ := strconv.ParseInt(s, 10, 64); return v }
-	if h.held != nil && f[0] != "w" && f[0] != "wr" && f[0] != "wbig" && f[0] != "lswal" && f[0] != "read" && f[0] != "snaprelease" {
+	if h.held != nil && f[0] != "w" && f[0] != "wr" && f[0] != "wbig" && f[0] != "lswal" && f[0] != "tsidump" && f[0] != "read" && f[0] != "snaprelease" {
 		h.SnapRelease() // only writes and reads run against a held snapshot
 	}
 	switch f[0] {
 	case "w":
 		return h.Write(f[1])
+	case "tsidump": // debugging aid: per index file, the series of a tag value and the tombstones
+		idx, err := h.Shard().Index()
+		if err != nil {
+			return "err"
+		}
+		t, ok := idx.(*tsi1.Index)
+		if !ok {
+			return "-"
+		}
+		var out []string
+		for pi := 0; pi < int(t.PartitionN); pi++ {
+			fs, err := t.PartitionAt(pi).RetainFileSet()
+			if err != nil {
+				continue
+			}
+			for _, fl := range fs.Files() {
+				ss, _ := fl.TagValueSeriesIDSet([]byte(f[1]), []byte(f[2]), []byte(f[3]))
+				ts, _ := fl.TombstoneSeriesIDSet()
+				all, _ := fl.SeriesIDSet()
+				str := func(x *tsdb.SeriesIDSet) string {
+					if x == nil {
+						return "nil"
+					}
+					return x.String()
+				}
+				out = append(out, fmt.Sprintf("p%d:%s:L%d:tv=%s:all=%s:tomb=%s", pi, filepath.Base(fl.Path()), fl.Level(), str(ss), str(all), str(ts)))
+			}
+			fs.Release()
+		}
+		return strings.Join(out, " ")
 	case "lswal": // debugging aid: the WAL segments and their sizes
 		var out []string
 		filepath.Walk(h.Dir, func(p string, fi os.FileInfo, err error) error {
